@@ -5,33 +5,33 @@ From Coq Require Import List NArith String.
 Import ListNotations.
 Local Open Scope string_scope.
 
-(* (enclosing C function, expected magic, allowed-state mask).  191 sites.
+(* (enclosing C function, expected magic, allowed-state mask).  193 sites.
    nr  file:line  [function-name literal]  mask expression
      0  archive_match.c:250  [archive_match_free]  ARCHIVE_STATE_ANY | ARCHIVE_STATE_FATAL
-     1  archive_match.c:277  [archive_match_excluded_ae]  ARCHIVE_STATE_NEW
-     2  archive_match.c:318  [archive_match_exclude_pattern]  ARCHIVE_STATE_NEW
-     3  archive_match.c:337  [archive_match_exclude_pattern_w]  ARCHIVE_STATE_NEW
-     4  archive_match.c:356  [archive_match_exclude_pattern_from_file]  ARCHIVE_STATE_NEW
-     5  archive_match.c:370  [archive_match_exclude_pattern_from_file_w]  ARCHIVE_STATE_NEW
-     6  archive_match.c:384  [archive_match_include_pattern]  ARCHIVE_STATE_NEW
-     7  archive_match.c:403  [archive_match_include_pattern_w]  ARCHIVE_STATE_NEW
-     8  archive_match.c:422  [archive_match_include_pattern_from_file]  ARCHIVE_STATE_NEW
-     9  archive_match.c:436  [archive_match_include_pattern_from_file_w]  ARCHIVE_STATE_NEW
-    10  archive_match.c:457  [archive_match_path_excluded]  ARCHIVE_STATE_NEW
-    11  archive_match.c:492  [archive_match_set_inclusion_recursion]  ARCHIVE_STATE_NEW
-    12  archive_match.c:507  [archive_match_unmatched_inclusions]  ARCHIVE_STATE_NEW
-    13  archive_match.c:522  [archive_match_unmatched_inclusions_next]  ARCHIVE_STATE_NEW
-    14  archive_match.c:539  [archive_match_unmatched_inclusions_next_w]  ARCHIVE_STATE_NEW
-    15  archive_match.c:988  [archive_match_time_include_entry]  ARCHIVE_STATE_NEW
-    16  archive_match.c:1015  [archive_match_time_excluded_ae]  ARCHIVE_STATE_NEW
-    17  archive_match.c:1034  [<_fn>]  ARCHIVE_STATE_NEW
-    18  archive_match.c:1593  [archive_match_include_uid]  ARCHIVE_STATE_NEW
-    19  archive_match.c:1604  [archive_match_include_gid]  ARCHIVE_STATE_NEW
-    20  archive_match.c:1615  [archive_match_include_uname]  ARCHIVE_STATE_NEW
-    21  archive_match.c:1626  [archive_match_include_uname_w]  ARCHIVE_STATE_NEW
-    22  archive_match.c:1637  [archive_match_include_gname]  ARCHIVE_STATE_NEW
-    23  archive_match.c:1648  [archive_match_include_gname_w]  ARCHIVE_STATE_NEW
-    24  archive_match.c:1667  [archive_match_id_excluded_ae]  ARCHIVE_STATE_NEW
+     1  archive_match.c:279  [archive_match_excluded_ae]  ARCHIVE_STATE_NEW
+     2  archive_match.c:320  [archive_match_exclude_pattern]  ARCHIVE_STATE_NEW
+     3  archive_match.c:339  [archive_match_exclude_pattern_w]  ARCHIVE_STATE_NEW
+     4  archive_match.c:358  [archive_match_exclude_pattern_from_file]  ARCHIVE_STATE_NEW
+     5  archive_match.c:372  [archive_match_exclude_pattern_from_file_w]  ARCHIVE_STATE_NEW
+     6  archive_match.c:386  [archive_match_include_pattern]  ARCHIVE_STATE_NEW
+     7  archive_match.c:405  [archive_match_include_pattern_w]  ARCHIVE_STATE_NEW
+     8  archive_match.c:424  [archive_match_include_pattern_from_file]  ARCHIVE_STATE_NEW
+     9  archive_match.c:438  [archive_match_include_pattern_from_file_w]  ARCHIVE_STATE_NEW
+    10  archive_match.c:459  [archive_match_path_excluded]  ARCHIVE_STATE_NEW
+    11  archive_match.c:494  [archive_match_set_inclusion_recursion]  ARCHIVE_STATE_NEW
+    12  archive_match.c:509  [archive_match_unmatched_inclusions]  ARCHIVE_STATE_NEW
+    13  archive_match.c:524  [archive_match_unmatched_inclusions_next]  ARCHIVE_STATE_NEW
+    14  archive_match.c:541  [archive_match_unmatched_inclusions_next_w]  ARCHIVE_STATE_NEW
+    15  archive_match.c:990  [archive_match_time_include_entry]  ARCHIVE_STATE_NEW
+    16  archive_match.c:1017  [archive_match_time_excluded_ae]  ARCHIVE_STATE_NEW
+    17  archive_match.c:1036  [<_fn>]  ARCHIVE_STATE_NEW
+    18  archive_match.c:1595  [archive_match_include_uid]  ARCHIVE_STATE_NEW
+    19  archive_match.c:1606  [archive_match_include_gid]  ARCHIVE_STATE_NEW
+    20  archive_match.c:1617  [archive_match_include_uname]  ARCHIVE_STATE_NEW
+    21  archive_match.c:1628  [archive_match_include_uname_w]  ARCHIVE_STATE_NEW
+    22  archive_match.c:1639  [archive_match_include_gname]  ARCHIVE_STATE_NEW
+    23  archive_match.c:1650  [archive_match_include_gname_w]  ARCHIVE_STATE_NEW
+    24  archive_match.c:1669  [archive_match_id_excluded_ae]  ARCHIVE_STATE_NEW
     25  archive_options.c:46  [<fn>]  ARCHIVE_STATE_NEW
     26  archive_options.c:46  [<fn>]  ARCHIVE_STATE_NEW
     27  archive_options.c:106  [<fn>]  ARCHIVE_STATE_NEW
@@ -48,13 +48,13 @@ Local Open Scope string_scope.
     38  archive_read.c:462  [archive_read_open]  ARCHIVE_STATE_NEW
     39  archive_read.c:623  [archive_read_next_header]  ARCHIVE_STATE_HEADER | ARCHIVE_STATE_DATA
     40  archive_read.c:755  [archive_read_header_position]  ARCHIVE_STATE_ANY
-    41  archive_read.c:930  [archive_read_data_skip]  ARCHIVE_STATE_DATA
-    42  archive_read.c:953  [archive_seek_data_block]  ARCHIVE_STATE_DATA
-    43  archive_read.c:979  [archive_read_data_block]  ARCHIVE_STATE_DATA
-    44  archive_read.c:1051  [archive_read_close]  ARCHIVE_STATE_ANY | ARCHIVE_STATE_FATAL
-    45  archive_read.c:1082  [archive_read_free]  ARCHIVE_STATE_ANY | ARCHIVE_STATE_FATAL
-    46  archive_read.c:1199  [__archive_read_register_format]  ARCHIVE_STATE_NEW
-    47  archive_read.c:1242  [__archive_read_register_bidder]  ARCHIVE_STATE_NEW
+    41  archive_read.c:949  [archive_read_data_skip]  ARCHIVE_STATE_DATA
+    42  archive_read.c:972  [archive_seek_data_block]  ARCHIVE_STATE_DATA
+    43  archive_read.c:998  [archive_read_data_block]  ARCHIVE_STATE_DATA
+    44  archive_read.c:1070  [archive_read_close]  ARCHIVE_STATE_ANY | ARCHIVE_STATE_FATAL
+    45  archive_read.c:1101  [archive_read_free]  ARCHIVE_STATE_ANY | ARCHIVE_STATE_FATAL
+    46  archive_read.c:1218  [__archive_read_register_format]  ARCHIVE_STATE_NEW
+    47  archive_read.c:1261  [__archive_read_register_bidder]  ARCHIVE_STATE_NEW
     48  archive_read_add_passphrase.c:92  [archive_read_add_passphrase]  ARCHIVE_STATE_NEW
     49  archive_read_add_passphrase.c:115  [archive_read_set_passphrase_callback]  ARCHIVE_STATE_NEW
     50  archive_read_data_into_fd.c:93  [archive_read_data_into_fd]  ARCHIVE_STATE_DATA
@@ -124,8 +124,8 @@ Local Open Scope string_scope.
    114  archive_read_support_format_warc.c:145  [archive_read_support_format_warc]  ARCHIVE_STATE_NEW
    115  archive_read_support_format_xar.c:74  [archive_read_support_format_xar]  ARCHIVE_STATE_NEW
    116  archive_read_support_format_xar.c:450  [archive_read_support_format_xar]  ARCHIVE_STATE_NEW
-   117  archive_read_support_format_zip.c:3574  [archive_read_support_format_zip]  ARCHIVE_STATE_NEW
-   118  archive_read_support_format_zip.c:4366  [archive_read_support_format_zip_seekable]  ARCHIVE_STATE_NEW
+   117  archive_read_support_format_zip.c:3595  [archive_read_support_format_zip]  ARCHIVE_STATE_NEW
+   118  archive_read_support_format_zip.c:4387  [archive_read_support_format_zip_seekable]  ARCHIVE_STATE_NEW
    119  archive_write.c:133  [archive_write_set_bytes_per_block]  ARCHIVE_STATE_NEW
    120  archive_write.c:151  [archive_write_get_bytes_per_block]  ARCHIVE_STATE_ANY
    121  archive_write.c:168  [archive_write_set_bytes_in_last_block]  ARCHIVE_STATE_ANY
@@ -134,9 +134,9 @@ Local Open Scope string_scope.
    124  archive_write.c:571  [archive_write_open]  ARCHIVE_STATE_NEW
    125  archive_write.c:622  [archive_write_close]  ARCHIVE_STATE_ANY | ARCHIVE_STATE_FATAL
    126  archive_write.c:703  [archive_write_free]  ARCHIVE_STATE_ANY | ARCHIVE_STATE_FATAL
-   127  archive_write.c:740  [archive_write_header]  ARCHIVE_STATE_DATA | ARCHIVE_STATE_HEADER
-   128  archive_write.c:804  [archive_write_finish_entry]  ARCHIVE_STATE_HEADER | ARCHIVE_STATE_DATA
-   129  archive_write.c:823  [archive_write_data]  ARCHIVE_STATE_DATA
+   127  archive_write.c:747  [archive_write_header]  ARCHIVE_STATE_DATA | ARCHIVE_STATE_HEADER
+   128  archive_write.c:811  [archive_write_finish_entry]  ARCHIVE_STATE_HEADER | ARCHIVE_STATE_DATA
+   129  archive_write.c:830  [archive_write_data]  ARCHIVE_STATE_DATA
    130  archive_write_add_filter_b64encode.c:85  [archive_write_add_filter_b64encode]  ARCHIVE_STATE_NEW
    131  archive_write_add_filter_bzip2.c:86  [archive_write_add_filter_bzip2]  ARCHIVE_STATE_NEW
    132  archive_write_add_filter_compress.c:133  [archive_write_add_filter_compress]  ARCHIVE_STATE_NEW
@@ -151,53 +151,55 @@ Local Open Scope string_scope.
    141  archive_write_add_filter_xz.c:190  [archive_write_add_filter_lzma]  ARCHIVE_STATE_NEW
    142  archive_write_add_filter_xz.c:207  [archive_write_add_filter_lzip]  ARCHIVE_STATE_NEW
    143  archive_write_add_filter_zstd.c:120  [archive_write_add_filter_zstd]  ARCHIVE_STATE_NEW
-   144  archive_write_disk_posix.c:583  [archive_write_disk_header]  ARCHIVE_STATE_HEADER | ARCHIVE_STATE_DATA
-   145  archive_write_disk_posix.c:953  [archive_write_disk_set_skip_file]  ARCHIVE_STATE_ANY
-   146  archive_write_disk_posix.c:1664  [archive_write_data_block]  ARCHIVE_STATE_DATA
-   147  archive_write_disk_posix.c:1692  [archive_write_data]  ARCHIVE_STATE_DATA
-   148  archive_write_disk_posix.c:1706  [archive_write_finish_entry]  ARCHIVE_STATE_HEADER | ARCHIVE_STATE_DATA
-   149  archive_write_disk_posix.c:1935  [archive_write_disk_set_group_lookup]  ARCHIVE_STATE_ANY
-   150  archive_write_disk_posix.c:1954  [archive_write_disk_set_user_lookup]  ARCHIVE_STATE_ANY
-   151  archive_write_disk_posix.c:1970  [archive_write_disk_gid]  ARCHIVE_STATE_ANY
-   152  archive_write_disk_posix.c:1981  [archive_write_disk_uid]  ARCHIVE_STATE_ANY
-   153  archive_write_disk_posix.c:2517  [archive_write_disk_close]  ARCHIVE_STATE_HEADER | ARCHIVE_STATE_DATA
-   154  archive_write_disk_posix.c:2652  [archive_write_disk_free]  ARCHIVE_STATE_ANY | ARCHIVE_STATE_FATAL
-   155  archive_write_disk_windows.c:842  [archive_write_disk_header]  ARCHIVE_STATE_HEADER | ARCHIVE_STATE_DATA
-   156  archive_write_disk_windows.c:1069  [archive_write_disk_set_skip_file]  ARCHIVE_STATE_ANY
-   157  archive_write_disk_windows.c:1165  [archive_write_data_block]  ARCHIVE_STATE_DATA
-   158  archive_write_disk_windows.c:1189  [archive_write_data]  ARCHIVE_STATE_DATA
-   159  archive_write_disk_windows.c:1201  [archive_write_finish_entry]  ARCHIVE_STATE_HEADER | ARCHIVE_STATE_DATA
-   160  archive_write_disk_windows.c:1332  [archive_write_disk_set_group_lookup]  ARCHIVE_STATE_ANY
-   161  archive_write_disk_windows.c:1351  [archive_write_disk_set_user_lookup]  ARCHIVE_STATE_ANY
-   162  archive_write_disk_windows.c:1367  [archive_write_disk_gid]  ARCHIVE_STATE_ANY
-   163  archive_write_disk_windows.c:1378  [archive_write_disk_uid]  ARCHIVE_STATE_ANY
-   164  archive_write_disk_windows.c:1950  [archive_write_disk_close]  ARCHIVE_STATE_HEADER | ARCHIVE_STATE_DATA
-   165  archive_write_disk_windows.c:1990  [archive_write_disk_free]  ARCHIVE_STATE_ANY | ARCHIVE_STATE_FATAL
-   166  archive_write_set_format_7zip.c:353  [archive_write_set_format_7zip]  ARCHIVE_STATE_NEW
-   167  archive_write_set_format_ar.c:91  [archive_write_set_format_ar_bsd]  ARCHIVE_STATE_NEW
-   168  archive_write_set_format_ar.c:107  [archive_write_set_format_ar_svr4]  ARCHIVE_STATE_NEW
-   169  archive_write_set_format_cpio_binary.c:181  [archive_write_set_format_cpio_binary]  ARCHIVE_STATE_NEW
-   170  archive_write_set_format_cpio_newc.c:112  [archive_write_set_format_cpio_newc]  ARCHIVE_STATE_NEW
-   171  archive_write_set_format_cpio_odc.c:106  [archive_write_set_format_cpio_odc]  ARCHIVE_STATE_NEW
-   172  archive_write_set_format_iso9660.c:1056  [archive_write_set_format_iso9660]  ARCHIVE_STATE_NEW
-   173  archive_write_set_format_mtree.c:1380  [<fn>]  ARCHIVE_STATE_NEW
-   174  archive_write_set_format_pax.c:117  [archive_write_set_format_pax_restricted]  ARCHIVE_STATE_NEW
-   175  archive_write_set_format_pax.c:135  [archive_write_set_format_pax]  ARCHIVE_STATE_NEW
-   176  archive_write_set_format_raw.c:54  [archive_write_set_format_raw]  ARCHIVE_STATE_NEW
-   177  archive_write_set_format_shar.c:109  [archive_write_set_format_shar]  ARCHIVE_STATE_NEW
-   178  archive_write_set_format_ustar.c:171  [archive_write_set_format_ustar]  ARCHIVE_STATE_NEW
-   179  archive_write_set_format_v7tar.c:148  [archive_write_set_format_v7tar]  ARCHIVE_STATE_NEW
-   180  archive_write_set_format_warc.c:123  [archive_write_set_format_warc]  ARCHIVE_STATE_NEW
-   181  archive_write_set_format_xar.c:360  [archive_write_set_format_xar]  ARCHIVE_STATE_NEW
-   182  archive_write_set_format_zip.c:564  [archive_write_zip_set_compression_deflate]  ARCHIVE_STATE_NEW | ARCHIVE_STATE_HEADER | ARCHIVE_STATE_DATA
-   183  archive_write_set_format_zip.c:592  [archive_write_zip_set_compression_bzip2]  ARCHIVE_STATE_NEW | ARCHIVE_STATE_HEADER | ARCHIVE_STATE_DATA
-   184  archive_write_set_format_zip.c:620  [archive_write_zip_set_compression_zstd]  ARCHIVE_STATE_NEW | ARCHIVE_STATE_HEADER | ARCHIVE_STATE_DATA
-   185  archive_write_set_format_zip.c:648  [archive_write_zip_set_compression_lzma]  ARCHIVE_STATE_NEW | ARCHIVE_STATE_HEADER | ARCHIVE_STATE_DATA
-   186  archive_write_set_format_zip.c:676  [archive_write_zip_set_compression_xz]  ARCHIVE_STATE_NEW | ARCHIVE_STATE_HEADER | ARCHIVE_STATE_DATA
-   187  archive_write_set_format_zip.c:705  [archive_write_zip_set_compression_store]  ARCHIVE_STATE_NEW | ARCHIVE_STATE_HEADER | ARCHIVE_STATE_DATA
-   188  archive_write_set_format_zip.c:726  [archive_write_set_format_zip]  ARCHIVE_STATE_NEW
-   189  archive_write_set_passphrase.c:57  [archive_write_set_passphrase]  ARCHIVE_STATE_NEW
-   190  archive_write_set_passphrase.c:70  [archive_write_set_passphrase_callback]  ARCHIVE_STATE_NEW
+   144  archive_write_disk_posix.c:572  [archive_write_disk_set_options]  ARCHIVE_STATE_ANY
+   145  archive_write_disk_posix.c:598  [archive_write_disk_header]  ARCHIVE_STATE_HEADER | ARCHIVE_STATE_DATA
+   146  archive_write_disk_posix.c:969  [archive_write_disk_set_skip_file]  ARCHIVE_STATE_ANY
+   147  archive_write_disk_posix.c:1684  [archive_write_data_block]  ARCHIVE_STATE_DATA
+   148  archive_write_disk_posix.c:1712  [archive_write_data]  ARCHIVE_STATE_DATA
+   149  archive_write_disk_posix.c:1726  [archive_write_finish_entry]  ARCHIVE_STATE_HEADER | ARCHIVE_STATE_DATA
+   150  archive_write_disk_posix.c:1966  [archive_write_disk_set_group_lookup]  ARCHIVE_STATE_ANY
+   151  archive_write_disk_posix.c:1985  [archive_write_disk_set_user_lookup]  ARCHIVE_STATE_ANY
+   152  archive_write_disk_posix.c:2001  [archive_write_disk_gid]  ARCHIVE_STATE_ANY
+   153  archive_write_disk_posix.c:2012  [archive_write_disk_uid]  ARCHIVE_STATE_ANY
+   154  archive_write_disk_posix.c:2549  [archive_write_disk_close]  ARCHIVE_STATE_HEADER | ARCHIVE_STATE_DATA
+   155  archive_write_disk_posix.c:2684  [archive_write_disk_free]  ARCHIVE_STATE_ANY | ARCHIVE_STATE_FATAL
+   156  archive_write_disk_windows.c:842  [archive_write_disk_header]  ARCHIVE_STATE_HEADER | ARCHIVE_STATE_DATA
+   157  archive_write_disk_windows.c:1069  [archive_write_disk_set_skip_file]  ARCHIVE_STATE_ANY
+   158  archive_write_disk_windows.c:1165  [archive_write_data_block]  ARCHIVE_STATE_DATA
+   159  archive_write_disk_windows.c:1189  [archive_write_data]  ARCHIVE_STATE_DATA
+   160  archive_write_disk_windows.c:1201  [archive_write_finish_entry]  ARCHIVE_STATE_HEADER | ARCHIVE_STATE_DATA
+   161  archive_write_disk_windows.c:1332  [archive_write_disk_set_group_lookup]  ARCHIVE_STATE_ANY
+   162  archive_write_disk_windows.c:1351  [archive_write_disk_set_user_lookup]  ARCHIVE_STATE_ANY
+   163  archive_write_disk_windows.c:1367  [archive_write_disk_gid]  ARCHIVE_STATE_ANY
+   164  archive_write_disk_windows.c:1378  [archive_write_disk_uid]  ARCHIVE_STATE_ANY
+   165  archive_write_disk_windows.c:1950  [archive_write_disk_close]  ARCHIVE_STATE_HEADER | ARCHIVE_STATE_DATA
+   166  archive_write_disk_windows.c:1990  [archive_write_disk_free]  ARCHIVE_STATE_ANY | ARCHIVE_STATE_FATAL
+   167  archive_write_open_memory.c:57  [archive_write_open_memory]  ARCHIVE_STATE_NEW
+   168  archive_write_set_format_7zip.c:353  [archive_write_set_format_7zip]  ARCHIVE_STATE_NEW
+   169  archive_write_set_format_ar.c:91  [archive_write_set_format_ar_bsd]  ARCHIVE_STATE_NEW
+   170  archive_write_set_format_ar.c:107  [archive_write_set_format_ar_svr4]  ARCHIVE_STATE_NEW
+   171  archive_write_set_format_cpio_binary.c:181  [archive_write_set_format_cpio_binary]  ARCHIVE_STATE_NEW
+   172  archive_write_set_format_cpio_newc.c:112  [archive_write_set_format_cpio_newc]  ARCHIVE_STATE_NEW
+   173  archive_write_set_format_cpio_odc.c:106  [archive_write_set_format_cpio_odc]  ARCHIVE_STATE_NEW
+   174  archive_write_set_format_iso9660.c:1056  [archive_write_set_format_iso9660]  ARCHIVE_STATE_NEW
+   175  archive_write_set_format_mtree.c:1380  [<fn>]  ARCHIVE_STATE_NEW
+   176  archive_write_set_format_pax.c:117  [archive_write_set_format_pax_restricted]  ARCHIVE_STATE_NEW
+   177  archive_write_set_format_pax.c:135  [archive_write_set_format_pax]  ARCHIVE_STATE_NEW
+   178  archive_write_set_format_raw.c:54  [archive_write_set_format_raw]  ARCHIVE_STATE_NEW
+   179  archive_write_set_format_shar.c:109  [archive_write_set_format_shar]  ARCHIVE_STATE_NEW
+   180  archive_write_set_format_ustar.c:171  [archive_write_set_format_ustar]  ARCHIVE_STATE_NEW
+   181  archive_write_set_format_v7tar.c:148  [archive_write_set_format_v7tar]  ARCHIVE_STATE_NEW
+   182  archive_write_set_format_warc.c:123  [archive_write_set_format_warc]  ARCHIVE_STATE_NEW
+   183  archive_write_set_format_xar.c:360  [archive_write_set_format_xar]  ARCHIVE_STATE_NEW
+   184  archive_write_set_format_zip.c:564  [archive_write_zip_set_compression_deflate]  ARCHIVE_STATE_NEW | ARCHIVE_STATE_HEADER | ARCHIVE_STATE_DATA
+   185  archive_write_set_format_zip.c:592  [archive_write_zip_set_compression_bzip2]  ARCHIVE_STATE_NEW | ARCHIVE_STATE_HEADER | ARCHIVE_STATE_DATA
+   186  archive_write_set_format_zip.c:620  [archive_write_zip_set_compression_zstd]  ARCHIVE_STATE_NEW | ARCHIVE_STATE_HEADER | ARCHIVE_STATE_DATA
+   187  archive_write_set_format_zip.c:648  [archive_write_zip_set_compression_lzma]  ARCHIVE_STATE_NEW | ARCHIVE_STATE_HEADER | ARCHIVE_STATE_DATA
+   188  archive_write_set_format_zip.c:676  [archive_write_zip_set_compression_xz]  ARCHIVE_STATE_NEW | ARCHIVE_STATE_HEADER | ARCHIVE_STATE_DATA
+   189  archive_write_set_format_zip.c:705  [archive_write_zip_set_compression_store]  ARCHIVE_STATE_NEW | ARCHIVE_STATE_HEADER | ARCHIVE_STATE_DATA
+   190  archive_write_set_format_zip.c:726  [archive_write_set_format_zip]  ARCHIVE_STATE_NEW
+   191  archive_write_set_passphrase.c:57  [archive_write_set_passphrase]  ARCHIVE_STATE_NEW
+   192  archive_write_set_passphrase.c:70  [archive_write_set_passphrase_callback]  ARCHIVE_STATE_NEW
 *)
 Definition magic_table : list (string * N * N) := [
   ("archive_match_free", 212668873%N, 65535%N);
@@ -344,6 +346,7 @@ Definition magic_table : list (string * N * N) := [
   ("archive_write_add_filter_lzma", 2965749982%N, 1%N);
   ("archive_write_add_filter_lzip", 2965749982%N, 1%N);
   ("archive_write_add_filter_zstd", 2965749982%N, 1%N);
+  ("archive_write_disk_set_options", 3221336261%N, 32767%N);
   ("_archive_write_disk_header", 3221336261%N, 6%N);
   ("archive_write_disk_set_skip_file", 3221336261%N, 32767%N);
   ("_archive_write_disk_data_block", 3221336261%N, 4%N);
@@ -366,6 +369,7 @@ Definition magic_table : list (string * N * N) := [
   ("archive_write_disk_uid", 3221336261%N, 32767%N);
   ("_archive_write_disk_close", 3221336261%N, 6%N);
   ("_archive_write_disk_free", 3221336261%N, 65535%N);
+  ("archive_write_open_memory", 2965749982%N, 1%N);
   ("archive_write_set_format_7zip", 2965749982%N, 1%N);
   ("archive_write_set_format_ar_bsd", 2965749982%N, 1%N);
   ("archive_write_set_format_ar_svr4", 2965749982%N, 1%N);
@@ -539,6 +543,7 @@ Definition magic_literals : list (string * string) := [
   ("archive_write_add_filter_lzma", "archive_write_add_filter_lzma");
   ("archive_write_add_filter_lzip", "archive_write_add_filter_lzip");
   ("archive_write_add_filter_zstd", "archive_write_add_filter_zstd");
+  ("archive_write_disk_set_options", "archive_write_disk_set_options");
   ("_archive_write_disk_header", "archive_write_disk_header");
   ("archive_write_disk_set_skip_file", "archive_write_disk_set_skip_file");
   ("_archive_write_disk_data_block", "archive_write_data_block");
@@ -561,6 +566,7 @@ Definition magic_literals : list (string * string) := [
   ("archive_write_disk_uid", "archive_write_disk_uid");
   ("_archive_write_disk_close", "archive_write_disk_close");
   ("_archive_write_disk_free", "archive_write_disk_free");
+  ("archive_write_open_memory", "archive_write_open_memory");
   ("archive_write_set_format_7zip", "archive_write_set_format_7zip");
   ("archive_write_set_format_ar_bsd", "archive_write_set_format_ar_bsd");
   ("archive_write_set_format_ar_svr4", "archive_write_set_format_ar_svr4");
@@ -588,4 +594,4 @@ Definition magic_literals : list (string * string) := [
   ("archive_write_set_passphrase_callback", "archive_write_set_passphrase_callback")
 ].
 
-Definition magic_site_count : N := 191%N.
+Definition magic_site_count : N := 193%N.
